@@ -236,7 +236,7 @@ def check_element(r: dict, res: float, dtn: str, En: float, P: np.ndarray) -> li
     tot = np.zeros_like(L0)
     for p in pieces:
         tot = tot + _np(p.length)
-    if tot.shape != L0.shape or np.any(np.abs(tot - L0) > RTOL_LEN[dtn] * np.maximum(np.abs(L0), 1e-30)):
+    if tot.shape != L0.shape or not np.all(np.abs(tot - L0) <= RTOL_LEN[dtn] * np.maximum(np.abs(L0), 1e-30)):
         out.append(("lengths-sum", f"piece lengths add up to {tot.tolist()} != original length {L0.tolist()} ({len(pieces)} pieces)"))
     # the original is unchanged by split
     if not np.array_equal(_np(el.length), _np(whole.length)):
@@ -249,7 +249,7 @@ def check_element(r: dict, res: float, dtn: str, En: float, P: np.ndarray) -> li
                 out.append(("piece type", f"piece {i} is a {type(p).__name__}"))
                 break
             lp = _np(p.length)
-            if np.any(lp > res * (1 + 8 * eps)):
+            if not np.all(lp <= res * (1 + 8 * eps)):
                 out.append(("piece>resolution", f"piece {i} has length {lp.tolist()} > resolution {res} ({len(pieces)} pieces of {L0.tolist()})"))
                 break
     else:
@@ -269,7 +269,7 @@ def check_element(r: dict, res: float, dtn: str, En: float, P: np.ndarray) -> li
         at = np.zeros_like(a0)
         for p in pieces:
             at = at + _np(p.angle)
-        if at.shape != a0.shape or np.any(np.abs(at - a0) > RTOL_LEN[dtn] * np.maximum(np.abs(a0), 1e-30)):
+        if at.shape != a0.shape or not np.all(np.abs(at - a0) <= RTOL_LEN[dtn] * np.maximum(np.abs(a0), 1e-30)):
             out.append(("angle-sum", f"piece angles add up to {at.tolist()} != original angle {a0.tolist()} ({len(pieces)} pieces)"))
 
     # (d) tracking (float64 only; float32 is C12's subject)
@@ -298,7 +298,7 @@ def check_element(r: dict, res: float, dtn: str, En: float, P: np.ndarray) -> li
                 else:
                     a, b = _np(got._mu)[..., k], _np(ref._mu)[..., k]
                 sc = max(float(np.max(np.abs(b))), 2e-5)
-                if a.shape != b.shape or np.max(np.abs(a - b)) > RTOL_TRACK * sc:
+                if a.shape != b.shape or not (np.max(np.abs(a - b)) <= RTOL_TRACK * sc):
                     out.append((f"deflection {bt}", f"total kick of the pieces differs: max |d p| = {np.max(np.abs(a - b)) if a.shape == b.shape else 'shape'}"))
     return out
 
@@ -411,7 +411,7 @@ def check_lattice(recs: list, res: float, En: float, P: np.ndarray, with_trackin
     leaves = LT.leaves(recs)
     L0 = sum(float(r.get("L", 0.0)) for r in leaves)
     tot = sum(float(_np(p.length)) for p in pieces)
-    if abs(tot - L0) > 1e-11 * max(L0, 1e-30):
+    if not abs(tot - L0) <= 1e-11 * max(L0, 1e-30):
         out.append(("lengths-sum", f"piece lengths add up to {tot} != {L0}"))
     for i, p in enumerate(pieces):
         if type(p).__name__ in SPLITTABLE and float(_np(p.length)) > res * (1 + 1e-14):
@@ -429,7 +429,7 @@ def check_lattice(recs: list, res: float, En: float, P: np.ndarray, with_trackin
     for cname, attr in (("HorizontalCorrector", "angle"), ("VerticalCorrector", "angle")):
         a0 = sum(float(r["angle"]) for r in leaves if r["cls"] == cname)
         a1 = sum(float(_np(p.angle)) for p in pieces if type(p).__name__ == cname)
-        if abs(a1 - a0) > 1e-11 * max(abs(a0), 1e-30):
+        if not abs(a1 - a0) <= 1e-11 * max(abs(a0), 1e-30):
             out.append(("angle-sum", f"{cname} angles of the pieces add up to {a1} != {a0}"))
     if with_tracking:
         for bt in ("ParticleBeam", "ParameterBeam"):
